@@ -92,8 +92,20 @@ class DummySolver:
 
 
 class FakeProcess:
-    def __init__(self, target=None, args=()):
-        pass
+    """A worker that never dies (the schedule decides what it has sent): the whole multiprocessing.Process reading
+    interface a parent may use to watch it - is_alive(), exitcode, a sentinel that never becomes ready, join()."""
+    exitcode = None
+    pid = 0
+    name = "fake"
+    daemon = False
+
+    def __init__(self, target=None, args=(), **kw):
+        self._never = None
+
+    def __del__(self):
+        if self._never is not None:
+            self._never[0].close()
+            self._never[1].close()
 
     def start(self):
         pass
@@ -104,6 +116,18 @@ class FakeProcess:
     def join(self, timeout=None):
         pass
 
+    def terminate(self):
+        pass
+
+    kill = close = terminate
+
+    @property
+    def sentinel(self):
+        if self._never is None:
+            import multiprocessing
+            self._never = multiprocessing.Pipe(duplex=False)      # one per worker, never written to: never ready
+        return self._never[0]
+
 
 def replay_one(sc, streams, order):
     """order = [[w, i], ...] (1-based worker, 1-based message).  Returns the observable behaviour of the parent."""
@@ -112,8 +136,32 @@ def replay_one(sc, streams, order):
     class FakeQueue:
         def __init__(self, *a, **k):
             self.it = iter(order)
+            self._pipe = None
+
+        @property
+        def _reader(self):
+            # for a parent that waits on the queue's connection (multiprocessing.connection.wait): a real connection
+            # that is readable exactly while the schedule still holds a message
+            if self._pipe is None:
+                import multiprocessing
+                self._pipe = multiprocessing.Pipe(duplex=False)
+                left = len(order) - len(gets)
+                for _ in range(left):
+                    self._pipe[1].send_bytes(b"m")
+            return self._pipe[0]
+
+        def __del__(self):
+            if self._pipe is not None:
+                self._pipe[0].close()
+                self._pipe[1].close()
 
         def get(self, *a, **k):
+            r = self._get(*a, **k)
+            if self._pipe is not None and self._pipe[0].poll():
+                self._pipe[0].recv_bytes()
+            return r
+
+        def _get(self, *a, **k):
             if getattr(self, "_peek", None) is not None:
                 (w, i), self._peek = self._peek, None
             else:
@@ -240,6 +288,10 @@ class LogQueue:
 
     def get_nowait(self):
         return self.get(block=False)
+
+    def __getattr__(self, name):
+        # anything else a parent may use of a multiprocessing.Queue (_reader, qsize, close, join_thread, ...)
+        return getattr(self.__dict__["q"], name)
 
 
 def real_run(sc, victim=-1, kill_before=-1, deadline=25.0, prior=0, how="exit3"):
